@@ -83,6 +83,7 @@ func init() {
 				{Scenario: "c03_conc", Params: mustJSON(ConcParams{Block: true}), Bound: 1, Shards: 4, Note: "consumer blocked inside a delivery of vb0 while the other node keeps delivering"},
 				{Scenario: "pipe", Params: mustJSON(PipeParams{Mode: "script", Layout: "single", Depth: 6, Ops: []string{"deliver0", "deliver1", "ackold", "commit"}, Faults: true}), Bound: 0, Shards: 4, Note: "saves that the store rejects between deliveries: delivery goes on (every later event still reaches the consumer, every later commit returns)"},
 				{Scenario: "c07_gate", Params: mustJSON(MitigationParams{Replicas: 1, EpochAssign: true}), Bound: 0, Shards: 8, Note: "an event that waits at the gate for longer than a configuration-watch interval is delivered once covered (not dropped)"},
+				{Scenario: "reopen_life", Params: mustJSON(LifeParams{Oracle: "tuple", Segs: 2}), Bound: 0, Shards: 8, Note: "'an offset that is that event's own position' across transient ends, fail-overs and rollbacks: seqno, announced snapshot and the vbUUID of the branch the (re-)opened stream is on"},
 				{Scenario: "c07_gate", Params: mustJSON(MitigationParams{Replicas: 1, Stall: true}), Bound: 0, Shards: 8, Note: "rollback mitigation on (the default): an event that has to wait at the gate is delivered once the copies have persisted it (completeness), also when the DCP thread stalls at any point"},
 				{Scenario: "c03_twosessions", Params: mustJSON(struct{}{}), Bound: 0, Shards: 1, Note: "two complete Dcp sessions in one process with independent collection configurations (and a collection re-created with a new id in between): names and stream filter of each session"},
 				{Scenario: "c03_rebalance", Params: mustJSON(struct{}{}), Bound: 0, Shards: 4, Note: "completeness across a real Rebalance(): backlog arriving before it, while closed, or right after the vBucket re-opened while Open() still waits for another vBucket"},
